@@ -26,7 +26,10 @@ func runC17(g Glue, j *Job, res *JobResult) {
 		return out
 	}
 	y0 := gsim.TotalYields()
-	before := solo()
+	var before [][]string
+	if !j.Cold {
+		before = solo()
+	}
 	total := int(gsim.TotalYields() - y0)
 	if len(j.Schedule.Permille) > 0 {
 		for _, pm := range j.Schedule.Permille {
@@ -47,6 +50,11 @@ func runC17(g Glue, j *Job, res *JobResult) {
 	}
 	s, panics := gsim.Run(j.Schedule, datas, j.Budget, bodies)
 	after := solo()
+	if j.Cold {
+		// cold start: the reference is what each task observes alone afterwards
+		before = after
+		res.Stats["cold-start"] = 1
+	}
 
 	var dg uint64 = 14695981039346656037
 	for i := 0; i < n; i++ {
